@@ -305,9 +305,12 @@ class PymbolicToASTMapper(CachedMapper):
     def map_constant(self, expr: ScalarT) -> ast.expr:
         if isinstance(expr, bool):
             return ast.NameConstant(expr)
-        elif isinstance(expr, (int, float)) and expr < 0:
-            # ast.unparse prints Constant(-2) as '-2', which binds weaker
-            # than '**' in source: Power(-2, x) must not become '-2 ** x'.
+        elif ((isinstance(expr, (int, float)) and expr < 0)
+                or (isinstance(expr, (float, complex))
+                    and repr(expr).startswith("-"))):
+            # ast.unparse prints Constant(-2) as '-2' (likewise -0.0 and -2j),
+            # which binds weaker than '**' in source: Power(-2, x) must not
+            # become '-2 ** x'.
             return ast.UnaryOp(ast.USub(), ast.Constant(-expr, None))
         else:
             return ast.Constant(expr, None)
